@@ -160,12 +160,40 @@ class C05(Prop):
         nested = nest(flat, 0, subset, rng, "w0", rename=rng.choice([False, True]), bind_inner=False)
         return {"flat": flat, "nested": nested, "values": [["x", rng.randint(0, 4)], ["y", rng.randint(0, 3)]], "cuts": [subset]}
 
+    @staticmethod
+    def _two_level_binding(rng: random.Random) -> dict:
+        """One input bound at TWO levels: a decoy value on the wrapped graph, the real value on the graph being run (which wins, as
+        flat.bind(k=decoy).bind(k=v) uses v) — through wrapper renames, with and without a plain consumer of the name left outside."""
+        v = rng.randint(1, 9)
+        nodes = [{"name": "a", "kind": "fn", "params": [["x", None], ["k", None]], "dataOuts": ["va"], "body": {"b": "tag", "t": "a"}},
+                 {"name": "b", "kind": "fn", "params": [["va", None], ["k", None]], "dataOuts": ["vb"], "body": {"b": "tag", "t": "b"}},
+                 {"name": "c", "kind": "fn", "params": [["vb", None], ["y", None]] + ([["k", None]] if rng.random() < 0.6 else []), "dataOuts": ["vc"], "body": {"b": "tag", "t": "c"}}]
+        rng.shuffle(nodes)
+        flat = [{"name": "g0", "nodes": nodes, "bound": [["k", v]]}]
+        subset = rng.choice([["a"], ["a", "b"], ["b"]])
+        nested = nest(flat, 0, subset, rng, "w0", rename=rng.choice([False, True, "perm"]), bind_inner=False, dup_bind=True)
+        cuts = [subset]
+        if rng.random() < 0.4:
+            # a second wrapper around another consumer of the name, with its own decoy
+            rest = [n for n in ("a", "b") if n not in subset][:1]
+            if rest:
+                nested = nest(nested, 1, rest, rng, "w1", rename=rng.choice([False, True]), bind_inner=False, dup_bind=True)
+                cuts.append(rest)
+        return {"flat": flat, "nested": nested, "values": [["x", rng.randint(0, 4)], ["y", rng.randint(0, 3)]], "cuts": cuts}
+
     def cases(self, rng: random.Random, tier: str) -> Iterable[dict]:
         forced = 4
+        forced2 = 4
         while True:
             if forced or rng.random() < 0.05:
                 forced = max(0, forced - 1)
                 c = self._gated_default_feed(rng)
+                for runner in ("sync", "async"):
+                    yield dict(c, runner=runner)
+                continue
+            if forced2 or rng.random() < 0.05:
+                forced2 = max(0, forced2 - 1)
+                c = self._two_level_binding(rng)
                 for runner in ("sync", "async"):
                     yield dict(c, runner=runner)
                 continue
